@@ -30,12 +30,12 @@ var decoderEntries = []entrySpec{
 }
 
 type decScope struct {
-	c        *Ctx
-	fns      []*ssa.Function          // in scope, deterministic order
-	in       map[*ssa.Function]bool
-	barrier  map[*ssa.Function]bool   // functions that recover panics of their callees
-	guarded  map[*ssa.Function]bool   // reachable only below a barrier
-	entryOf  map[*ssa.Function]string // an entry that reaches it
+	c       *Ctx
+	fns     []*ssa.Function // in scope, deterministic order
+	in      map[*ssa.Function]bool
+	barrier map[*ssa.Function]bool   // functions that recover panics of their callees
+	guarded map[*ssa.Function]bool   // reachable only below a barrier
+	entryOf map[*ssa.Function]string // an entry that reaches it
 }
 
 // hasRecover: fn defers a function literal that calls recover().
